@@ -316,7 +316,16 @@ pub fn run(tier: &str) -> i32 {
                     let kind = crate::c05::rejection_kind(errs);
                     let derives_pod = c.bytemuck_host || c.bytemuck_vertex;
                     if kind != "other" && derives_pod {
-                        // the deliberate rejections by the bytemuck derives
+                        // the deliberate rejections by the bytemuck derives - provided the rejected text is what the
+                        // generator produces for this input at all: the same call on a fresh thread (no state left by
+                        // earlier calls) must give the same text, otherwise the rejection is an artefact of call history
+                        let (src2, cfg2) = (a.src.clone(), *c);
+                        let fresh = std::thread::spawn(move || generate(&src2, &cfg2)).join().ok();
+                        let same = matches!((&fresh, &outs[*k]), (Some(Outcome::Ok(x)), Outcome::Ok(y)) if x == y);
+                        if !same {
+                            rep.violation(format!("{}|{}", a.id, c.key()), "rustc rejects a module that differs from what a fresh thread generates for the same input (spurious rejection caused by earlier calls)".to_string(), json!({"wgsl": a.src, "config": c.key(), "observed": errs.iter().take(3).map(|(c, m)| format!("{c}: {m}")).collect::<Vec<_>>()}));
+                            continue;
+                        }
                         rep.outcomes.insert(format!("permitted:{kind}"));
                         rep.count(&format!("permitted rejection ({kind})"));
                         continue;
